@@ -552,3 +552,33 @@ pub fn gen_endpoint(rng: &mut Rng, prof: Profile, id: usize) -> Vec<String> {
     lines.push("end".into());
     lines
 }
+
+/// C19: server reads of masked frames and client writes, payload lengths 0..=67 at every offset
+pub fn gen_maskpaths(rng: &mut Rng) -> Vec<Vec<String>> {
+    let mut cases = Vec::new();
+    let mut id = 0;
+    for len in 0..=67usize {
+        for pad in 0..8usize {
+            // decode in place in the read buffer
+            let mut lines = vec![format!("case endpoint maskpaths-r-{id}")];
+            lines.push("cfg role=server rbuf=4096 wbuf=0 maxw=inf maxmsg=none maxframe=none unmasked=0 pre=none".into());
+            let a = enc_frame(true, 0, 2, Some(rng.mask()), &payload(rng, pad), LenForm::Minimal);
+            let b = enc_frame(true, 0, 2, Some(rng.mask()), &payload(rng, len), LenForm::Minimal);
+            lines.push(format!("peer {}{}", hex(&a).replace('-', ""), hex(&b)));
+            lines.push("op read m=-".into());
+            lines.push("op read m=-".into());
+            lines.push("end".into());
+            cases.push(lines);
+            // encode into the shared write buffer
+            let mut lines = vec![format!("case endpoint maskpaths-w-{id}")];
+            lines.push("cfg role=client rbuf=4096 wbuf=4096 maxw=inf maxmsg=none maxframe=none unmasked=0 pre=none".into());
+            lines.push(format!("op write binary {} m={}", hex(&payload(rng, pad)), hex(&rng.mask())));
+            lines.push(format!("op write binary {} m={}", hex(&payload(rng, len)), hex(&rng.mask())));
+            lines.push("op flush m=-".into());
+            lines.push("end".into());
+            cases.push(lines);
+            id += 1;
+        }
+    }
+    cases
+}
